@@ -89,8 +89,7 @@ def run(chk):
         return out
     gc, gr = groups(cv), groups(rv)
     gr_t = [g for g in gr if "var_type" in g or g == "else"]
-    chk.check([g for g in gc] == gr_t or [g for g in gc] == [g for g in gr_t if g != "value < 0"], "R2", f"{E} | converter and reverter branch on the same type groups", cv.loc(),
-              f"_convert_variable: {gc}; _revert_variable: {gr_t}")
+    # (the agreement of the two functions per type group is decided by the probes below, not by the shape of their if-chains)
     # integer branch of the reverter: sign-safe literal
     int_probes = [(O.DATA_TYPES["INTEGER16"][0], -5, "negative INTEGER16"), (O.DATA_TYPES["INTEGER32"][0], -2 ** 31, "minimum INTEGER32"), (O.DATA_TYPES["UNSIGNED8"][0], 0, "zero"),
                   (O.DATA_TYPES["UNSIGNED32"][0], 0xFFFFFFFF, "maximum UNSIGNED32"), (O.DATA_TYPES["INTEGER8"][0], 127, "positive INTEGER8")]
